@@ -53,6 +53,7 @@ pub enum Class {
     GlobalFnUsingGlobalBox,
     AggPlainThenBoxDropped,
     BlockYieldsOtherBox,
+    ShadowedBox,
     // ---- known findings on the pinned tree (rate per dsp call in `rate()`)
     LocalCaptureBound,
     ReturnedBound,
@@ -75,9 +76,16 @@ pub enum Class {
     VariantClosureLocal,
     BoxedReturnedFromIfDropped,
     HelperYieldsOtherBox,
+    ClosureCapturingClosure,
+    ClosureCapturingBox,
+    ReturnedClosureCapturingBox,
+    BoxThroughIdentity,
+    LocalTupleOfBoxes,
+    MatchTailDropped,
+    BoxInCondition,
 }
 
-pub const STABLE: [Class; 32] = [
+pub const STABLE: [Class; 33] = [
     Class::LocalNoCapture,
     Class::InplaceCapturing,
     Class::GlobalClosureCalled,
@@ -110,8 +118,9 @@ pub const STABLE: [Class; 32] = [
     Class::GlobalFnUsingGlobalBox,
     Class::AggPlainThenBoxDropped,
     Class::BlockYieldsOtherBox,
+    Class::ShadowedBox,
 ];
-pub const LEAKY: [Class; 21] = [
+pub const LEAKY: [Class; 28] = [
     Class::LocalCaptureBound,
     Class::ReturnedBound,
     Class::ReturnedInplace,
@@ -133,6 +142,13 @@ pub const LEAKY: [Class; 21] = [
     Class::VariantClosureLocal,
     Class::BoxedReturnedFromIfDropped,
     Class::HelperYieldsOtherBox,
+    Class::ClosureCapturingClosure,
+    Class::ClosureCapturingBox,
+    Class::ReturnedClosureCapturingBox,
+    Class::BoxThroughIdentity,
+    Class::LocalTupleOfBoxes,
+    Class::MatchTailDropped,
+    Class::BoxInCondition,
 ];
 
 impl Class {
@@ -171,6 +187,14 @@ impl Class {
             Class::AggPlainThenBoxDropped => "aggregate-with-a-plain-member-before-a-boxed-one-dropped",
             Class::BlockYieldsOtherBox => "block-binding-a-box-and-yielding-another-box",
             Class::HelperYieldsOtherBox => "helper-binding-a-box-and-returning-another-box",
+            Class::ShadowedBox => "let-bound-box-shadowed-by-another-box",
+            Class::ClosureCapturingClosure => "local-closure-capturing-a-local-closure",
+            Class::ClosureCapturingBox => "local-closure-capturing-a-local-box",
+            Class::ReturnedClosureCapturingBox => "closure-returned-from-callee-capturing-a-boxed-argument",
+            Class::BoxThroughIdentity => "boxed-value-passed-through-an-identity-function-and-dropped",
+            Class::LocalTupleOfBoxes => "tuple-of-boxes-destructured-in-dsp",
+            Class::MatchTailDropped => "match-binding-a-boxed-tail-that-is-dropped",
+            Class::BoxInCondition => "boxed-temporary-consumed-in-an-if-condition",
             Class::FactoryCallbackScheduledByLetrecTask => "factory-made-callback-scheduled-by-a-letrec-task",
             Class::MatchBoxPayload => "match-projecting-a-boxed-payload-of-a-global-tree",
             Class::AssignGlobalClosure => "closure-assigned-to-a-global-from-dsp",
@@ -200,6 +224,11 @@ impl Class {
             Class::LocalCaptureBound | Class::LocalIfSelectedFn => (1, 0),
             Class::LocalTupleClosure => (1, 1),
             Class::BoxedReturnedFromIfDropped | Class::HelperYieldsOtherBox => (0, 1),
+            Class::BoxThroughIdentity | Class::BoxInCondition => (0, 1),
+            Class::LocalTupleOfBoxes | Class::MatchTailDropped => (0, 2),
+            Class::ClosureCapturingClosure => (2, 1),
+            Class::ClosureCapturingBox => (1, 1),
+            Class::ReturnedClosureCapturingBox => (1, 2),
             Class::NestedTupleClosuresReturned => (2, 2),
             Class::AssignGlobalClosure | Class::ClosureThroughCalls | Class::VariantClosureLocal => (1, 1),
             Class::IfReturnedClosure => (1, 0),
@@ -358,6 +387,50 @@ impl Inst {
             Class::InplaceCallsGlobalClosure => (
                 format!("fn mk{i}(q){{\n  |x| x * q\n}}\nlet g{i} = mk{i}({k})\n"),
                 format!("  let r{i} = (|y| g{i}(y) + 1.0)(now);\n"),
+                format!("r{i}"),
+            ),
+            Class::ShadowedBox => (
+                format!("type rec Sl{i} = Sn{i} | Sc{i}(float, Sl{i})\n"),
+                format!("  let sb{i} = Sc{i}({k}, Sn{i});\n  let sb{i} = Sc{i}(now, Sn{i});\n  let r{i} = now;\n"),
+                format!("r{i}"),
+            ),
+            Class::ClosureCapturingClosure => (
+                String::new(),
+                format!("  let ck{i} = now;\n  let cf{i} = |x| x + ck{i};\n  let cg{i} = |y| cf{i}(y) * {k};\n  let r{i} = cg{i}(1.0);\n"),
+                format!("r{i}"),
+            ),
+            Class::ClosureCapturingBox => (
+                format!("type rec Ql{i} = Qn{i} | Qc{i}(float, Ql{i})\n"),
+                format!("  let ql{i} = Qc{i}(now, Qn{i});\n  let qf{i} = |x| match ql{i} {{ Qn{i} => x, Qc{i}(h, t) => h + x }};\n  let r{i} = qf{i}({k});\n"),
+                format!("r{i}"),
+            ),
+            Class::ReturnedClosureCapturingBox => (
+                format!("type rec Wl{i} = Wn{i} | Wc{i}(float, Wl{i})\nfn wmk{i}(l:Wl{i}){{\n  |x| match l {{ Wn{i} => x, Wc{i}(h, t) => h + x }}\n}}\n"),
+                format!("  let wf{i} = wmk{i}(Wc{i}(now, Wn{i}));\n  let r{i} = wf{i}({k});\n"),
+                format!("r{i}"),
+            ),
+            Class::BoxThroughIdentity => (
+                format!("type rec Il{i} = In{i} | Ic{i}(float, Il{i})\nfn idl{i}(x:Il{i}) -> Il{i} {{\n  x\n}}\n"),
+                format!("  let ib{i} = idl{i}(Ic{i}(now, In{i}));\n  let r{i} = now + {k};\n"),
+                format!("r{i}"),
+            ),
+            Class::LocalTupleOfBoxes => (
+                format!("type rec Tl{i} = Tn{i} | Tc{i}(float, Tl{i})\n"),
+                if n % 2 == 0 {
+                    format!("  let (ta{i}, tb{i}) = (Tc{i}(now, Tn{i}), Tc{i}({k}, Tn{i}));\n  let r{i} = now;\n")
+                } else {
+                    format!("  let (ta{i}, _) = (Tc{i}(now, Tn{i}), Tc{i}({k}, Tn{i}));\n  let r{i} = now;\n")
+                },
+                format!("r{i}"),
+            ),
+            Class::MatchTailDropped => (
+                format!("type rec Ml{i} = Mn{i} | Mc{i}(float, Ml{i})\n"),
+                format!("  let ml{i} = Mc{i}(now, Mc{i}({k}, Mn{i}));\n  let r{i} = match ml{i} {{\n    Mc{i}(a, t) => a,\n    Mn{i} => 0.0\n  }};\n"),
+                format!("r{i}"),
+            ),
+            Class::BoxInCondition => (
+                format!("type rec Cl{i} = Cn{i} | Cc{i}(float, Cl{i})\nfn isn{i}(l:Cl{i}) -> float {{\n  match l {{ Cn{i} => 1.0, Cc{i}(h, t) => 0.0 }}\n}}\n"),
+                format!("  let r{i} = if (isn{i}(Cc{i}(now, Cn{i})) > 0.5) {{ {k} }} else {{ now }};\n"),
                 format!("r{i}"),
             ),
             Class::BoxedDropped => {
